@@ -29,9 +29,16 @@ Valid(s, k) == s.kid = k /\ s.by = k /\ s.ok /\ s.over = content
 LInitRest ==
   /\ content = "v0" /\ sigs = << >> /\ vkeys = {} /\ t = 0 /\ pc = "construct" /\ ops = << >> /\ res = "run"
 
+\* The direct constructor signs once per listed key (a key listed twice yields two signatures);
+\* the builder keeps one signature per key id (a later one replaces an earlier one).
+RECURSIVE Distinct(_)
+Distinct(s) == IF s = << >> THEN << >>
+               ELSE IF \E j \in 2..Len(s) : s[j] = s[1] THEN Distinct(Tail(s))
+               ELSE <<s[1]>> \o Distinct(Tail(s))
 Construct ==
   /\ pc = "construct"
-  /\ sigs' = [i \in DOMAIN signers |-> [kid |-> signers[i], by |-> signers[i], ok |-> TRUE, over |-> "v0"]]
+  /\ LET who == IF ctor = "build" THEN Distinct(signers) ELSE signers IN
+     sigs' = [i \in DOMAIN who |-> [kid |-> who[i], by |-> who[i], ok |-> TRUE, over |-> "v0"]]
   /\ ops' = Append(ops, [op |-> ctor, signers |-> signers])
   /\ pc' = "write"
   /\ UNCHANGED <<params, content, vkeys, t, res>>
@@ -103,6 +110,13 @@ RelabelToStar ==
   /\ UNCHANGED <<params, content, vkeys, t, pc, res>>
 
 GoodKeys == {k \in vkeys : \E s \in Range(sigs) : Valid(s, k)}
+\* keys whose every signature (by claimed id) is valid: they count whichever copy de-duplication keeps
+SureKeys == {k \in GoodKeys : \A s \in Range(sigs) : s.kid = k => Valid(s, k)}
+\* C04 leaves duplicates of mixed validity open
+AllowedVerdicts ==
+  IF sigs = << >> \/ t < 1 \/ Cardinality(GoodKeys) < t THEN {"err"}
+  ELSE IF Cardinality(SureKeys) >= t THEN {"ok"}
+  ELSE {"ok", "err"}
 
 Verify ==
   /\ pc = "verify"
